@@ -59,6 +59,13 @@ def run(ctx, rep, tier):
             if i_sw is None:
                 raise AnalysisError(f"{fn}: no `switch (state->state)` emitted")
             pre_rets = [e for e in evs[:i_sw] if e.kind == "RET"]
+            has_fail_state = p.valuation().get("self.generic_fail_state in self.dfa.states")
+            entry = [e for e in evs[:i_sw] if e.kind == "RET_ENTRY_EMPTY"]
+            if entry:
+                rep.check(all("self.generic_fail_state" in (e.a or "") for e in entry) and has_fail_state is True, "C10.b", fn, f"entry test answers FAIL in the fail state, OK otherwise [{pk}]",
+                          f"the empty-chunk entry test compares the state with {[e.a for e in entry]}, not with the fail state")
+            if pre_rets and has_fail_state is False:
+                pre_rets = []        # no fail state in this machine: FAIL can never have been returned
             rep.check(not pre_rets, "C10.b", fn, f"return-before-switch [{pk}]",
                       "a return is emitted before the state switch: after FAIL, this call does not return FAIL "
                       f"({[e.text.strip() for e in pre_rets]})")
@@ -180,6 +187,8 @@ _run_q01 = run
 def run(ctx, rep, tier):
     _run_q01(ctx, rep, tier)
     from .shared import delegate
+    delegate(ctx, rep, tier, "C17", ("C17.h",), "C10.k", "a statement that starts with a condition point is always entered through a helper state (no symbol-less copies of conditional transitions: such a state only returns OK)")
+    delegate(ctx, rep, tier, "C01", ("C01.r",), "C10.j", "the statements after a construct (a finish code in particular) are chained onto every path that leaves it")
     delegate(ctx, rep, tier, "C01", ("C01.q",), "C10.h", "the non-accepting tail `return OK` of a state's switch is not reachable mid-chunk through a loop end state without Else")
 
 
